@@ -277,7 +277,7 @@ func (e *Engine) VerifyFunction(key string, property string, safety bool) (res *
 		res.Inlined = c.inlined
 		res.Assumed = c.assumedClauses
 		if c.foreignUsed {
-			res.Assumed["separation: calls with 'assigns foreign' (assemblers, callbacks) do not write objects owned by "+c.fnKey()+" (its pointer parameters' objects, its own allocations, globals)"] = true
+			res.Assumed["separation: calls with 'assigns foreign' (assemblers, callbacks) do not write the objects directly referenced by the pointer/slice parameters of "+c.fnKey()+""] = true
 		}
 		c.finish(res)
 	}()
